@@ -1,12 +1,12 @@
 CONSTANTS
   MaxUI = 2
-  Kinds = {"finite", "endless"}
+  Kinds = {"finite"}
   ShowBumpsVersion = TRUE
-  TemplateHasQ = TRUE
+  TemplateHasQ = FALSE
   H = 2
   LensKind = "mixed"
-  WithScroll = FALSE
+  WithScroll = TRUE
   DelayedSetsVersion <- TreeDelayedSetsVersion
 SPECIFICATION Spec
-INVARIANTS TypeOK OneAlive ConvergenceLostCancel
+INVARIANTS TypeOK OneAlive ConvergenceLostOffsetReset
 CHECK_DEADLOCK FALSE
